@@ -49,7 +49,7 @@ EXP_RE = re.compile(r"[A-Za-z0-9_-]+\.task\.[1-9][0-9]*\Z")
 TASK_RE = re.compile(r"[A-Za-z0-9_-]+\.task(\.[1-9][0-9]*)?\Z")
 
 
-def oracle_delete_set(out_root, recorded):
+def oracle_delete_set(out_root, recorded, follow_links=False):
     """Directories under cond-out, not inside any task output directory, whose
     name is exactly <name>.task.<positive int> and whose (package, name, ts) is
     not recorded."""
@@ -59,7 +59,7 @@ def oracle_delete_set(out_root, recorded):
         cur = stack.pop()
         for name in sorted(os.listdir(cur)):
             p = os.path.join(cur, name)
-            if os.path.islink(p) or not os.path.isdir(p):
+            if (os.path.islink(p) and not follow_links) or not os.path.isdir(p):
                 continue
             if EXP_RE.match(name):
                 rel = os.path.relpath(cur, out_root)
@@ -245,9 +245,18 @@ def scale_fn(g):
     nrec = (101, 136)[g.choose("recorded", 2)]
     nun = (9, 12)[g.choose("unrecorded", 2)]
     dry = g.flag("dry_run")
+    linked = ("no", "cond-out", "package-directory")[g.choose("output_directory_is_a_symbolic_link", 3)]
     proj = hrun.Project()
     try:
         proj.write("p/COND", "run_experiment(name='a', run='true')\nrun_experiment(name='b', run='true')\n")
+        # outputs kept on another disk: cond-out itself, or the directory of package p below it, is a symbolic link
+        if linked == "cond-out":
+            (proj.root / "scratch disk").mkdir()
+            os.symlink(str(proj.root / "scratch disk"), str(proj.out))
+        elif linked == "package-directory":
+            (proj.root / "scratch disk" / "deep" / "outputs of p").mkdir(parents=True)
+            proj.out.mkdir()
+            os.symlink(str(proj.root / "scratch disk" / "deep" / "outputs of p"), str(proj.out / "p"))
         recorded = set()
         ties = g.flag("equal_timestamps_across_tasks")
         if ties:
@@ -272,14 +281,23 @@ def scale_fn(g):
             d = proj.out / "p" / ("a.task.%d" % (5000 + j))
             d.mkdir(parents=True)
             (d / "partial.txt").write_text("failed run")
-        before = hrun.tree_digest(proj.root)
-        want = oracle_delete_set(str(proj.out), recorded)
+        def everything():
+            """Every directory and file reachable from cond-out (links followed), relative to it."""
+            seen_ = set()
+            for cur_, dirs_, files_ in os.walk(str(proj.out), followlinks=True):
+                for n_ in dirs_ + files_:
+                    seen_.add(os.path.relpath(os.path.join(cur_, n_), str(proj.out)))
+            return seen_
+        before = everything()
+        want = oracle_delete_set(str(proj.out), recorded, follow_links=(linked != "no"))
         res = hrun.invoke(cli_gc.main, argparse.Namespace(dry_run=dry, verbose=False, debug=False), str(proj.root), fakeos.Kernel(fakeos.Sched()), timeout=120)
-        D = "%d recorded versions of //p:a and //p:b, %d unrecorded outputs of //p:a, dry_run=%s" % (nrec, nun, dry)
+        D = "%d recorded versions of //p:a and //p:b, %d unrecorded outputs of //p:a, dry_run=%s, symbolic link: %s" % (nrec, nun, dry, linked)
         if isinstance(res.status, str):
             g.require(False, "gc:crash:" + res.status[4:], "%s; %s" % (res.exc, D))
-        after = hrun.tree_digest(proj.root)
-        gone_dirs = sorted(k for k in before if k not in after and before[k][0] == "dir" and ".task." in os.path.basename(k))
+        after = everything()
+        gone_all = before - after
+        gone_dirs = sorted(k for k in gone_all if ".task." in os.path.basename(k) and not any(
+            os.path.dirname(k) == x or os.path.dirname(k).startswith(x + os.sep) for x in gone_all))
         if dry:
             printed = sorted(os.path.relpath(os.path.normpath(os.path.join(str(proj.root), l[len("Would delete "):])), str(proj.out))
                              for l in res.out.split("\n") if l.startswith("Would delete "))
@@ -287,7 +305,7 @@ def scale_fn(g):
             g.require(printed == want, "gc:dry-run-listing", "listed %d directories, a real gc would delete %d (e.g. %s); %s" % (
                 len(printed), len(want), sorted(set(printed) ^ set(want))[:4], D))
         else:
-            got = sorted(os.path.relpath(k, "cond-out") for k in gone_dirs)
+            got = sorted(gone_dirs)
             g.require(set(got) <= set(want), "gc:deleted-too-much", "removed recorded/other directories %s; %s" % (sorted(set(got) - set(want))[:4], D))
             g.require(set(want) <= set(got), "gc:left-unrecorded-output", "did not remove %s; %s" % (sorted(set(want) - set(got))[:4], D))
         g.goal("more than 100 recorded versions")
@@ -299,7 +317,8 @@ def scale_fn(g):
 def spaces(tier):
     goals = ["something to delete next to something to keep", "look-alike nested inside a task output", "listing from a sub-directory"]
     return [Space("scale-rows-and-leftovers", scale_fn, "101 / 136 recorded versions of two tasks (rows interleaved) + 9 / 12 unrecorded outputs in the "
-                  "same package, gc and gc --dry-run", depth=3, goals=["more than 100 recorded versions"]),
+                  "same package, packages four levels deep, equal timestamps across tasks, cond-out or a package directory below it being a "
+                  "symbolic link to another disk; gc and gc --dry-run", depth=4, goals=["more than 100 recorded versions"]),
             Space("catalogue-12", make(), "every subset of a 12-entry catalogue (2^12 trees) x --dry-run x --verbose x working directory "
                   "{project root, a sub-directory}", depth=9, goals=goals, outside=["symlinks placed by hand", "deeper nesting than 2 packages"])]
 
